@@ -63,9 +63,23 @@ def approxEqMap (aks avs bks bvs : List Val) : Bool :=
 termination_by structural avs
 end
 
+mutual
+/-- Does the type contain a map keyed by pointers? Go compares such keys by identity: a copy that shares
+nothing has different keys, so "equal to the source" is not expressible for these types (outside C06). -/
+def hasPtrKeyMap : Node → Bool
+  | .basic _ => false
+  | .struct _ chld => hasPtrKeyMapList chld
+  | .map _ k v => k.ptr || hasPtrKeyMap v
+  | .slice _ e => hasPtrKeyMap e
+def hasPtrKeyMapList : List Node → Bool
+  | [] => false
+  | n :: ns => hasPtrKeyMap n || hasPtrKeyMapList ns
+end
+
 /-- C06: the copy is structurally identical to the source (nil/empty collections identified by `eqS`
 through lengths), shares nothing, DeepEqual says so. -/
 def copyAccepts (n : Node) (src : Val) (copy : Val) (shared : Nat) (deqSaysEqual srcUnchanged : Bool) : Bool :=
-  shared == 0 && srcUnchanged && deqSaysEqual && eqS {} n "" src copy == .must
+  if hasPtrKeyMap n then shared == 0 && srcUnchanged && eqS {} n "" src copy != .mustNot
+  else shared == 0 && srcUnchanged && deqSaysEqual && eqS {} n "" src copy == .must
 
 end Inspector
